@@ -139,6 +139,67 @@ Theorem C20_url_userinfo_removed :
 Proof. exact url_hides. Qed.
 Print Assumptions C20_url_userinfo_removed.
 
+(* ---- payloads handed over as Python objects (clean_record / write_event called with a dict) ----
+   The model's heap makes object identity explicit: a value is an owned tree or a reference to
+   a container ([HRef]), so one dict/list can be reachable from several places and can be
+   mutated in place between two calls.  [unfold] is the object's current VALUE (the tree got
+   by following the references); [clean_href] is the walk clean_record/_clean_items make over
+   the objects.  The walk gives exactly the tree clean of the value - whether and where
+   containers are shared is invisible in the result. *)
+Theorem C20_object_walk_is_clean_of_value :
+  forall (sens : text -> bool) (str_of repr_of : json -> text) (digest colq : text -> text)
+         (f : nat) (h : heap) (m : bool) (v : hval),
+  clean_href sens str_of repr_of digest colq f h m v =
+  clean_at sens str_of repr_of digest colq m (unfold f h v).
+Proof. exact clean_href_unfold. Qed.
+Print Assumptions C20_object_walk_is_clean_of_value.
+
+(* Hence C20_clean_redacts holds at EVERY occurrence of a shared object: for every heap, every
+   root and every path of the root's value whose first sensitive key is its last step, the walk
+   over the objects leaves a digest placeholder there and nothing below it. *)
+Theorem C20_every_occurrence_of_a_shared_object_is_redacted :
+  forall (str_of repr_of : json -> text) (digest colq : text -> text) (f : nat) (h : heap) (root : hval)
+         (p : list nat) (i : nat) (kvs : list (text * json)) (k : text) (v : json),
+  forallb (fun k => negb (sensitive_spec k) && negb (ends_with [10] k)) (jkeys p (unfold f h root)) = true ->
+  jget p (unfold f h root) = Some (JObj kvs) -> nth_error kvs i = Some (k, v) -> sensitive_spec k = true ->
+  cget (p ++ [i]) (clean_href sensitive_code str_of repr_of digest colq f h false root) = Some (CRedacted (digest (str_of v))) /\
+  forall q, q <> [] -> cget ((p ++ [i]) ++ q) (clean_href sensitive_code str_of repr_of digest colq f h false root) = None.
+Proof. exact heap_redacts_spec. Qed.
+Print Assumptions C20_every_occurrence_of_a_shared_object_is_redacted.
+
+(* One step of a session (the function the "sess" correspondence stream evaluates): a call on a
+   dict object leaves every object as it is and returns clean_record_model of the object's
+   CURRENT value - the tree-level function all theorems above speak about; write_event cleans
+   with colorize = False. *)
+Theorem C20_object_call_shows_current_value_only :
+  forall (digest : text -> text) (h : heap) (r : nat) (c : bool) (kvs : list (text * hval)),
+  nth_error h r = Some (HDict kvs) ->
+  exists o, unfold (S (List.length h)) h (HRef r) = JObj o /\
+    sess_step digest h (OClean r c) = (h, SItems (clean_record_model digest c o)) /\
+    sess_step digest h (OGcl r) = (h, SItems (clean_record_model digest false o)).
+Proof. exact sess_call_value. Qed.
+Print Assumptions C20_object_call_shows_current_value_only.
+
+(* Two payloads with the same value - one with shared containers, one without, in different
+   heaps, after different histories - give the same output. *)
+Theorem C20_equal_values_give_equal_output :
+  forall (digest : text -> text) (h1 h2 : heap) (r1 r2 : nat) (c : bool) (kvs1 kvs2 : list (text * hval)),
+  nth_error h1 r1 = Some (HDict kvs1) -> nth_error h2 r2 = Some (HDict kvs2) ->
+  unfold (S (List.length h1)) h1 (HRef r1) = unfold (S (List.length h2)) h2 (HRef r2) ->
+  call_items digest h1 r1 c = call_items digest h2 r2 c.
+Proof. exact call_items_same_value. Qed.
+Print Assumptions C20_equal_values_give_equal_output.
+
+(* Whole sessions (calls, in-place mutations by the caller, new objects, edits of returned
+   dicts): the n-th output is the call evaluated on the heap that the first n operations
+   leave; nothing else of the history enters (heap_step ignores calls and edits of results). *)
+Theorem C20_session_output_depends_on_current_objects_only :
+  forall (digest : text -> text) (ops : list sop) (h : heap) (n : nat),
+  nth_error (sess_run digest h ops) n =
+  option_map (call_out digest (fold_left heap_step (firstn n ops) h)) (nth_error ops n).
+Proof. exact sess_run_nth. Qed.
+Print Assumptions C20_session_output_depends_on_current_objects_only.
+
 (* Non-vacuity. *)
 Definition ex_record : obj :=
   [(T "user", JStr (T "bob"));
@@ -182,3 +243,29 @@ Example C20_nonvacuous_tail :
   sanitize_core sensitive_code parse (fun _ => T "0a1b2c3d") false (T "app | ERROR | {""password"": ""a|b""}") =
   T "app | ERROR | {""\u0001KEYmpassword\u0001OFFm"": ""\u0001VALUEm\u0001PURPLEm<redacted:0a1b2c3d>\u0001OFFm\u0001OFFm""}".
 Proof. vm_compute. reflexivity. Qed.
+
+(* one connection object referenced from two sibling keys, from an array (twice) and from deeper
+   down; mutated in place between two calls; the first returned dict emptied by the caller *)
+Definition ex_heap : heap :=
+  [HDict [(T "host", HLeaf (JStr (T "db"))); (T "password", HLeaf (JStr (T "s3cret")))];
+   HList [HRef 0%nat; HRef 0%nat];
+   HDict [(T "primary", HRef 0%nat); (T "replica", HRef 0%nat); (T "targets", HRef 1%nat);
+          (T "history", HLeaf (JObj [(T "n", JNum (T "1"))]))]].
+
+Example C20_nonvacuous_shared_object :
+  nth_error ex_heap 2 = Some (HDict [(T "primary", HRef 0%nat); (T "replica", HRef 0%nat); (T "targets", HRef 1%nat);
+                                     (T "history", HLeaf (JObj [(T "n", JNum (T "1"))]))]) /\
+  jget [1%nat] (unfold 4 ex_heap (HRef 2%nat)) = Some (JObj [(T "host", JStr (T "db")); (T "password", JStr (T "s3cret"))]) /\
+  jget [2%nat; 1%nat] (unfold 4 ex_heap (HRef 2%nat)) = Some (JObj [(T "host", JStr (T "db")); (T "password", JStr (T "s3cret"))]) /\
+  sess_run (fun _ => T "0a1b2c3d") ex_heap
+    [OClean 2 false; OSet 0 (T "api_token") (HLeaf (JStr (T "t0k"))); OTouch 0; OClean 2 false] =
+  [SItems [(T "primary", T "{'host': 'db', 'password': '<redacted:0a1b2c3d>'}");
+           (T "replica", T "{'host': 'db', 'password': '<redacted:0a1b2c3d>'}");
+           (T "targets", T "[{'host': 'db', 'password': '<redacted:0a1b2c3d>'}, {'host': 'db', 'password': '<redacted:0a1b2c3d>'}]");
+           (T "history", T "{'n': '1'}")];
+   SNone; SNone;
+   SItems [(T "primary", T "{'host': 'db', 'password': '<redacted:0a1b2c3d>', 'api_token': '<redacted:0a1b2c3d>'}");
+           (T "replica", T "{'host': 'db', 'password': '<redacted:0a1b2c3d>', 'api_token': '<redacted:0a1b2c3d>'}");
+           (T "targets", T "[{'host': 'db', 'password': '<redacted:0a1b2c3d>', 'api_token': '<redacted:0a1b2c3d>'}, {'host': 'db', 'password': '<redacted:0a1b2c3d>', 'api_token': '<redacted:0a1b2c3d>'}]");
+           (T "history", T "{'n': '1'}")]].
+Proof. repeat split; vm_compute; reflexivity. Qed.
